@@ -222,6 +222,37 @@ pub fn gen_program(seed: u64) -> Program {
     if mutant && r.chance(1, 2) {
         main.push_str("def broken_a() -> int:\n    return undefined_name_a\n\ndef broken_b() -> int:\n    return undefined_name_b + other_missing\n\n");
     }
+    if mutant {
+        // more constructs that report several errors at once (their order must not depend on the process)
+        match r.below(6) {
+            0 => {
+                // @requires fields missing from the adopter, several traits
+                main.push_str("@requires(name: str, level: int, tag: str)\ntrait Loggable9:\n    def log(self) -> None:\n        println(self.name)\n\n@requires(count: int, step: int)\ntrait Counter9:\n    def bump(mut self) -> None:\n        self.count += 1\n\nclass Service9 with Loggable9, Counter9:\n    other: int\n\n");
+                targets.push("trait requires".to_string());
+            }
+            1 => {
+                // non-exhaustive match: several variants missing
+                main.push_str("enum Dir9:\n    North\n    East\n    South\n    West\n    Up\n\ndef turn9(d: Dir9) -> int:\n    match d:\n        Dir9.North => return 1\n\n");
+                targets.push("match exhaustiveness".to_string());
+            }
+            2 => {
+                // unknown and duplicated constructor fields
+                main.push_str("model Pt9:\n    x: int\n    y: int\n\ndef mk9() -> Pt9:\n    return Pt9(x=1, y=2, z=3, w=4, q=5)\n\n");
+                targets.push("unknown ctor fields".to_string());
+            }
+            3 => {
+                // wrong types in several arguments and a wrong argument count
+                main.push_str("def take9(a: int, b: str, c: bool) -> int:\n    return a\n\ndef call9() -> int:\n    u = take9(\"s\", 1, 2)\n    v = take9(1)\n    return u + v\n\n");
+                targets.push("call argument errors".to_string());
+            }
+            4 => {
+                // const cycle and const type mismatch
+                main.push_str("const CA9: int = CB9 + 1\nconst CB9: int = CC9 + 1\nconst CC9: int = CA9 + 1\nconst CS9: int = \"text\"\n\n");
+                targets.push("const evaluation".to_string());
+            }
+            _ => {}
+        }
+    }
     main.push_str("def main() -> None:\n");
     if uses.is_empty() {
         main.push_str("    pass\n");
